@@ -24,16 +24,21 @@ deriving Inhabited
 structure Cl where
   cacheGen : Nat := 0
   cache : Record := Record.empty
+  /-- the inode the client has mapped: 0 = the writer's, k > 0 = the k-th replacement put at the path (op `x`) -/
+  ino : Nat := 0
 deriving Inhabited
 
 def Cl.snap (c : Cl) (s : Seg) : Cl :=
-  if s.version = 0 ∨ s.gen = 0 ∨ s.gen = c.cacheGen ∨ s.gen % 2 = 1 then c else ⟨s.gen, s.cur⟩
+  if s.version = 0 ∨ s.gen = 0 ∨ s.gen = c.cacheGen ∨ s.gen % 2 = 1 then c else { c with cacheGen := s.gen, cache := s.cur }
 
 /-- `ShmReader::new` on the session's file (magic and size are always right here) -/
 def Seg.openable (s : Seg) : Bool := s.version != 0 && s.gen != 0
 
 structure St where
+  /-- the inode the writer has mapped (and every client attached before a replacement) -/
   seg : Seg := {}
+  /-- the replacement inodes put at the path so far (op `x`), oldest first; later opens and pokes get the last one -/
+  alts : List Seg := []
   rust : Option Cl := none
   c : Option Cl := none
   /-- answers so far, newest first -/
@@ -52,7 +57,7 @@ def queryStep (st : St) (tag : String) (isC : Bool) (args : List String) : Optio
     match cl with
     | none => some { st with out := s!"{tag} closed" :: st.out }
     | some c =>
-      let c' := c.snap st.seg
+      let c' := c.snap (if c.ino = 0 then st.seg else st.alts.getD (c.ino - 1) st.seg)
       let x : ClientIn := ⟨c'.cache, ⟨rs, rn⟩, ⟨ms, mn⟩⟩
       let o := computeBoundAt x.r x.real x.mono
       let st' := if isC then { st with c := some c' } else { st with rust := some c' }
@@ -67,16 +72,34 @@ def opStep (st : St) (op : List String) : Option St :=
       let r : Record := ⟨⟨as, an⟩, ⟨vs, vn⟩, b, dr.toNat, 0, DriverH.statusOfInt stt⟩
       some { st with seg := { st.seg with gen := genFinish (genStart st.seg.gen), cur := r }, out := "w" :: st.out }
     | _ => none
-  | ["g", v] => v.toNat?.map fun n => { st with seg := { st.seg with gen := n % 65536 }, out := "p" :: st.out }
-  | ["v", v] => v.toNat?.map fun n => { st with seg := { st.seg with version := n % 65536 }, out := "p" :: st.out }
+  | ["g", v] => v.toNat?.map fun n =>
+    match st.alts.getLast? with
+    | some a => { st with alts := st.alts.dropLast ++ [{ a with gen := n % 65536 }], out := "p" :: st.out }
+    | none => { st with seg := { st.seg with gen := n % 65536 }, out := "p" :: st.out }
+  | ["v", v] => v.toNat?.map fun n =>
+    match st.alts.getLast? with
+    | some a => { st with alts := st.alts.dropLast ++ [{ a with version := n % 65536 }], out := "p" :: st.out }
+    | none => { st with seg := { st.seg with version := n % 65536 }, out := "p" :: st.out }
+  | "x" :: args => do
+    match ← ints args with
+    | [g, as, an, vs, vn, b, dr, stt] =>
+      let r : Record := ⟨⟨as, an⟩, ⟨vs, vn⟩, b, dr.toNat, 0, DriverH.statusOfInt stt⟩
+      some { st with alts := st.alts ++ [{ version := 1, gen := g.toNat % 65536, cur := r }], out := "p" :: st.out }
+    | _ => none
   | ["o"] =>
-    if st.seg.openable then some { st with rust := some {}, out := "o ok" :: st.out }
+    let s := st.alts.getLast?.getD st.seg
+    if s.openable then some { st with rust := some { ino := st.alts.length }, out := "o ok" :: st.out }
     else some { st with rust := none, out := "o err notinit 0 -" :: st.out }
   | ["co"] =>
-    if st.seg.openable then some { st with c := some {}, out := "co ok" :: st.out }
+    let s := st.alts.getLast?.getD st.seg
+    if s.openable then some { st with c := some { ino := st.alts.length }, out := "co ok" :: st.out }
     else some { st with c := none, out := "co err notinit 0 -" :: st.out }
   | "q" :: args => queryStep st "q" false args
   | "cq" :: args => queryStep st "cq" true args
+  -- the same call N times: nothing changes in between, so N identical answers (`snapshot` is idempotent on a
+  -- quiescent segment, `computeBoundAt` is a function)
+  | "qn" :: _ :: args => (queryStep st "q" false args).map fun s => { s with out := "rep same" :: s.out }
+  | "cqn" :: _ :: args => (queryStep st "cq" true args).map fun s => { s with out := "rep same" :: s.out }
   | _ => none
 
 def run (ops : List (List String)) : Option St := ops.foldlM opStep {}
@@ -113,7 +136,7 @@ def line (args impl : List String) : String :=
       let outs : List (ClientIn × Option Outcome) := pairs.map fun (xo, la) => (xo.1, parseOut la.2)
       if outs.any (fun p => p.2.isNone) then
         -- an answer that is not a result of now() at all (e.g. an error kind the client does not have)
-        s!"{model} | C05:FAILS C06:FAILS C14:FAILS C12:FAILS C17:FAILS oracle:unparsed | session"
+        s!"{model} | C05:FAILS C06:FAILS C14:FAILS C12:FAILS C17:FAILS C03:FAILS oracle:unparsed | session"
       else
         let os : List (ClientIn × Outcome) := outs.filterMap fun p => p.2.map fun o => (p.1, o)
         let v05 := DriverH.verdict "C05" (os.any fun p => C05.applicable p.1) (os.all fun p => !C05.applicable p.1 || C05.Holds p.1 p.2)
@@ -123,12 +146,18 @@ def line (args impl : List String) : String :=
         -- C17: the C context and the Rust client are one function of (segment history, call history): each answer
         -- is the model's
         let v17 := DriverH.verdict "C17" (!pairs.isEmpty) (pairs.all fun p => p.2.2 == (nowText p.1.2).splitOn " ")
+        -- C03: every call is answered from the record the cache semantics prescribes (never an older one, the
+        -- latest complete one when nothing is in flight), and repeating a call changes nothing
+        let repsOk := (DriverH.splitSemi impl).all fun g => g.head? != some "rep" || g == ["rep", "same"]
+        let v03 := DriverH.verdict "C03" (!pairs.isEmpty) (repsOk && pairs.all fun p => p.2.2 == (nowText p.1.2).splitOn " ")
         let multi := if qs.length ≥ 4 then ["multiCall"] else []
         let aged := if os.any (fun p => decide (p.1.mono.toNs - p.1.r.asOf.toNs > (5000000000 : Int)) && (p.1.r.status != .unknown)) then ["aged"] else []
         let bad := if os.any (fun p => decide (p.1.r.drift ≥ 1000000000)) then ["badDrift"] else []
         let blur := if os.any (fun p => decide (p.1.mono.toNs < p.1.r.asOf.toNs)) then ["nearBlur"] else []
-        let odd := if ops.any (fun o => o.head? == some "g") then ["poked"] else []
+        let odd := (if ops.any (fun o => o.head? == some "g") then ["poked"] else []) ++
+          (if ops.any (fun o => o.head? == some "x") then ["replaced"] else []) ++
+          (if ops.any (fun o => o.head? == some "qn" || o.head? == some "cqn") then ["repeated"] else [])
         let growth := if os.any (fun p => decide (p.1.mono.toNs > p.1.r.asOf.toNs ∧ p.1.r.drift > 0 ∧ p.1.r.drift < 1000000000 ∧ C05.exactGrowth p.1 ≥ 1)) then ["growth"] else []
-        s!"{model} | {v05} {v06} {v14} {v12} {v17} | {String.intercalate "," (["session"] ++ multi ++ aged ++ bad ++ blur ++ odd ++ growth)}"
+        s!"{model} | {v05} {v06} {v14} {v12} {v17} {v03} | {String.intercalate "," (["session"] ++ multi ++ aged ++ bad ++ blur ++ odd ++ growth)}"
 
 end ClockBound.DriverS
